@@ -251,3 +251,108 @@ Proof.
 Qed.
 
 End Theory05.
+
+(* ==================================================================== the Qc instance *)
+Local Open Scope Qc_scope.
+
+Definition bw_is_rule_Qc := bw_is_rule QcX QcX_field QcX_small6 Qc_eq_bool_correct Qc_eq_bool_refl'.
+Definition hypothetical_formula_Qc := hypothetical_formula QcX.
+Definition attributions_formula_Qc := attributions_formula QcX.
+Definition closed_form_Qc := closed_form QcX QcX_field.
+Definition taff_onehot_Qc := taff_onehot QcX QcX_field Qc_eq_bool_correct Qc_eq_bool_refl'.
+
+Lemma tol9_nonneg : 0 <= tol9.
+Proof. unfold Qcle, Qle; cbn; lia. Qed.
+
+Lemma vmag_nonneg v : 0 <= vmag v.
+Proof.
+  induction v as [|a v IH]; [apply Qc_0_le_1|]. cbn [vmag fold_right]. fold (vmag v).
+  unfold qmax. destruct (Qc_leb (Qcabs a) (vmag v)); [exact IH | apply Qcabs_nonneg].
+Qed.
+
+Lemma vclose'_eqn n a b : (forall i, nth i a 0 = nth i b 0) -> vclose' n a b = true.
+Proof.
+  intros H. unfold vclose'. apply forallb_forall. intros i _. rewrite H.
+  apply close_refl; [apply tol9_nonneg | apply vmag_nonneg].
+Qed.
+
+Lemma vclose'_refl n a : vclose' n a a = true.
+Proof. apply vclose'_eqn. reflexivity. Qed.
+
+Lemma list_eqb_sound {T} (eqb : T -> T -> bool) (H : forall a b, eqb a b = true -> a = b) :
+  forall l1 l2, list_eqb eqb l1 l2 = true -> l1 = l2.
+Proof.
+  induction l1 as [|x l1 IH]; intros [|y l2] E; cbn in E; try discriminate; [reflexivity|].
+  apply andb_true_iff in E as [E1 E2]. f_equal; [apply H; exact E1 | apply IH; exact E2].
+Qed.
+
+(* scope of the C05 theorem for one example: x is the one-hot encoding of a sequence, there is a
+   reference, and every pair's trace is consistent and band-free (C04.Proofs.chain) *)
+Definition scope_pair05 (e : ecall) (p : pair) : Prop :=
+  let rr := run QcX (p_net p) (e_x e) (p_ref p) in
+  chain QcX (fst rr) (e_x e) (p_ref p) (fst (snd rr)) (snd (snd rr)) /\
+  length (fst (snd rr)) = e_nout e.
+Definition scope05 (e : ecall) : Prop :=
+  (exists s, e_x e = ohe QcX (e_A e) (e_L e) s) /\ length (e_x e) = e_n e /\
+  e_pairs e <> [] /\ (e_target e < e_nout e)%nat /\ Forall (scope_pair05 e) (e_pairs e).
+
+Lemma single_affine_nets e W : single_affine e = Some W ->
+  forall p, In p (e_pairs e) -> exists b, p_net p = (NAffine W b :: nil).
+Proof.
+  unfold single_affine. destruct (e_pairs e) as [|p0 ps] eqn:Ep; [discriminate|].
+  destruct (p_net p0) as [|[W0 b0|f|us|wins|wins vx vr] [|l2 rest]] eqn:En; try discriminate.
+  destruct (forallb _ (p0 :: ps)) eqn:Ef; [|discriminate]. intros E; inversion E; subst W0.
+  intros p Hp. rewrite forallb_forall in Ef. specialize (Ef p Hp).
+  destruct (p_net p) as [|[W' b'|f|us|wins|wins vx vr] [|l2 rest]]; try discriminate.
+  apply (list_eqb_sound _ (list_eqb_sound _ Qc_eq_bool_correct)) in Ef. subst W'. exists b'. reflexivity.
+Qed.
+
+Lemma ex05_on_model e : scope05 e -> ex_ok05 false e (model_ex false e) = true.
+Proof.
+  intros ((s & Hs) & Hx & Hne & Ht & Hp). rewrite Forall_forall in Hp.
+  unfold ex_ok05, model_ex. cbv zeta. cbn [o_mult o_hyp o_attr]. change (QcO false) with QcX.
+  destruct (existsb (fun p => has_pool QcX (trace_of false e p)) (e_pairs e)) eqn:Epool; [reflexivity|].
+  assert (Hnp : forall p, In p (e_pairs e) -> has_pool QcX (trace_of false e p) = false).
+  { intros p Hin. destruct (has_pool QcX (trace_of false e p)) eqn:E; [|reflexivity].
+    assert (X : existsb (fun p => has_pool QcX (trace_of false e p)) (e_pairs e) = true)
+      by (apply existsb_exists; exists p; split; assumption).
+    rewrite X in Epool. discriminate. }
+  set (ms := map (fun p => fst (pair_ev false e p)) (e_pairs e)).
+  set (refs := map p_ref (e_pairs e)).
+  assert (Hl : length ms = length refs) by (unfold ms, refs; rewrite !map_length; reflexivity).
+  fold ms. fold refs.
+  apply andb_true_iff; split; [apply andb_true_iff; split; [apply andb_true_iff; split|]|].
+  - (* multipliers = pointwise rescale-rule evaluation *)
+    unfold ms. apply all2_map_r. intros p Hin. apply vclose'_eqn.
+    destruct (Hp p Hin) as [Hc _].
+    exact (bw_is_rule_Qc _ _ _ _ _ (onehot QcX (e_nout e) (e_target e)) Hc (Hnp p Hin)).
+  - rewrite (hypothetical_formula_Qc (e_A e) (e_L e) ms refs Hl). apply vclose'_refl.
+  - rewrite (attributions_formula_Qc (e_A e) (e_L e) (e_x e) ms refs Hl Hx). apply vclose'_refl.
+  - destruct (single_affine e) as [W|] eqn:Esa; [|reflexivity].
+    apply forallb_forall. intros k Hk. apply in_seq in Hk.
+    apply forallb_forall. intros p Hpp. apply in_seq in Hpp.
+    destruct (Qc_eq_bool (nth (k * e_L e + p) (e_x e) 0) 1) eqn:E1; [|reflexivity].
+    apply Qc_eq_bool_correct in E1.
+    apply close_eq; [| apply tol9_nonneg | apply vmag_nonneg].
+    rewrite (attributions_formula_Qc (e_A e) (e_L e) (e_x e) ms refs Hl Hx).
+    rewrite (nth_grid2 QcX) by lia.
+    rewrite Hs in E1 |- *.
+    apply closed_form_Qc; try lia; try assumption.
+    + unfold refs. rewrite map_length. apply fnat_nonzero. destruct (e_pairs e); [congruence | cbn; lia].
+    + unfold ms. apply Forall_forall. intros m Hm. apply in_map_iff in Hm as (p' & <- & Hin).
+      destruct (single_affine_nets e W Esa p' Hin) as [b Hnet].
+      destruct (Hp p' Hin) as [Hc Hlen]. cbv zeta in Hc, Hlen.
+      unfold pair_ev, pair_eval. cbn [fst]. rewrite Hnet in *. cbn [run fst snd] in *.
+      destruct Hc as (HW & Hd & _ & Hb & (Hyx & _)).
+      intros c Hc. cbn [bw bw_layer].
+      assert (Hn : e_nout e = length W).
+      { rewrite <- Hlen, Hyx. unfold aff. rewrite map2_length by (symmetry; exact Hb). reflexivity. }
+      rewrite Hn, Hd. apply taff_onehot_Qc; [rewrite <- Hs; exact HW | rewrite <- Hn; exact Ht].
+Qed.
+
+Theorem spec05_on_model exs :
+  Forall scope05 exs -> spec_ok05 (C false exs) (model (C false exs)) = true.
+Proof.
+  intros H. rewrite Forall_forall in H. unfold spec_ok05, model. cbn [c_ex c_rounded].
+  apply all2_map_r. intros e Hin. apply ex05_on_model. apply H. exact Hin.
+Qed.
